@@ -22,7 +22,7 @@ naturals (lnd: uint64 msat; sums of htlc amounts stay far below 2^64).  The
 expiry guards are modelled with their exact int32 → uint32 conversion.
 
 Outside the model (documented in checks/C15.notes.md): AMP invoices (an AMP
-*payload* towards a non-AMP invoice is modelled), blinded paths, the external
+*payload* towards a non-AMP invoice is modelled), the external
 htlc interceptor, invoice expiry (time / height based cancellation = `cancel`).
 -/
 namespace LndModel.C15
@@ -84,12 +84,14 @@ structure Invoice where
   payAddrReq : Bool
   mppOpt : Bool
   ampReq : Bool
+  /-- Bolt11BlindedPathsRequired (not consulted by the settlement logic) -/
+  blinded : Bool
   hodl : Bool
   htlcs : List Htlc
   amtPaid : Nat
   deriving DecidableEq, Repr
 
-/-- `invoiceUpdateCtx`.  `ks`: the keysend custom record (`none` absent, `some none` not 32
+/-- `invoiceUpdateCtx`.  `mpp`: the MPP record (total, payment address).  `ks`: the keysend custom record (`none` absent, `some none` not 32
     bytes, `some (some p)` a 32-byte preimage).  `amp`: an AMP record is present. -/
 structure Ctx where
   hash : Nat
@@ -99,6 +101,9 @@ structure Ctx where
   height : Int
   rejectDelta : Int
   mpp : Option (Nat × Nat)
+  /-- blinded-path payload: `payload.PathID()` and `payload.TotalAmtMsat()` -/
+  pathID : Option Nat
+  total : Nat
   amp : Bool
   ks : Option (Option Nat)
   now : Nat
@@ -199,11 +204,21 @@ def updateLegacy (H : Nat → Nat) (ctx : Ctx) (inv : Invoice) : Upd × Res :=
         | none => (.none, .fail .typeMismatch ctx.height)
         | some p => (.add h (some .settled), .settle .settled p ctx.height)
 
+/-- set total and payment address that `updateMpp` works with: those of the MPP record if there
+    is one, otherwise (blinded path) `totalAmtMsat` and the path ID; `none` = legacy path. -/
+def effMpp (ctx : Ctx) : Option (Nat × Nat) :=
+  match ctx.mpp with
+  | some m => some m
+  | none =>
+    match ctx.pathID with
+    | some a => some (ctx.total, a)
+    | none => none
+
 /-- `updateInvoice` dispatch. -/
 def updateInvoice (H : Nat → Nat) (ctx : Ctx) (inv : Invoice) : Upd × Res :=
   if ctx.amp && ctx.mpp.isNone then (.none, .fail .ampError ctx.height)
   else
-    match ctx.mpp with
+    match effMpp ctx with
     | none => updateLegacy H ctx inv
     | some (total, addr) => updateMpp ctx total addr inv
 
@@ -395,6 +410,12 @@ def lookup (cfg : Cfg) (invs : List Invoice) (hash : Nat) (mpp : Option (Nat × 
       | some _, none => none
       | none, y => y
 
+/-- the address part of `ctx.invoiceRef()`: the path ID has priority over the MPP record. -/
+def refAddr (ctx : Ctx) : Option (Nat × Nat) :=
+  match ctx.pathID with
+  | some a => some (0, a)
+  | none => ctx.mpp
+
 def setInv (invs : List Invoice) (inv : Invoice) : List Invoice :=
   invs.map (fun i => if i.hash = inv.hash then inv else i)
 
@@ -414,13 +435,15 @@ structure InvSpec where
   payAddrReq : Bool
   mppOpt : Bool
   ampReq : Bool
+  blinded : Bool
   hodl : Bool
   deriving Repr
 
 def InvSpec.toInvoice (s : InvSpec) : Invoice :=
   { hash := s.hash, state := .open, value := s.value, payAddr := s.payAddr, preimage := s.preimage,
     finalCltv := s.finalCltv, tlv := s.tlv, payAddrOpt := s.payAddrOpt, payAddrReq := s.payAddrReq,
-    mppOpt := s.mppOpt, ampReq := s.ampReq, hodl := s.hodl, htlcs := [], amtPaid := 0 }
+    mppOpt := s.mppOpt, ampReq := s.ampReq, blinded := s.blinded, hodl := s.hodl, htlcs := [],
+    amtPaid := 0 }
 
 /-- `AddInvoice`: duplicate payment hash / duplicate (non-blank) payment address are refused. -/
 def addInvoice (reg : Reg) (s : InvSpec) : Option Reg :=
@@ -441,7 +464,7 @@ def processKeySend (H : Nat → Nat) (cfg : Cfg) (reg : Reg) (ctx : Ctx) : Optio
       match addInvoice reg
         { hash := ctx.hash, value := ctx.amt, payAddr := 0, preimage := some p,
           finalCltv := cfg.rejectDelta, tlv := true, payAddrOpt := false, payAddrReq := false,
-          mppOpt := false, ampReq := false, hodl := cfg.ksHold } with
+          mppOpt := false, ampReq := false, blinded := false, hodl := cfg.ksHold } with
       | some reg' => some reg'
       | none => some reg     -- ErrDuplicateInvoice is ignored
 
@@ -463,7 +486,7 @@ def notify (H : Nat → Nat) (cfg : Cfg) (reg : Reg) (ctx : Ctx) : Reg × Out :=
   match pre with
   | none => (reg, ⟨.res (.fail .keySendError ctx.height), []⟩)
   | some reg =>
-    match lookup cfg reg.invs ctx.hash ctx.mpp ctx.amp with
+    match lookup cfg reg.invs ctx.hash (refAddr ctx) (ctx.amp && ctx.pathID.isNone) with
     | none => (reg, ⟨.res (.fail .invoiceNotFound ctx.height), []⟩)
     | some inv =>
       let (inv', r) := inotify H ctx inv
